@@ -20,7 +20,7 @@ META = {
         "thorough": {"slice": "CAT(3) x CAT(4), up to 2 insertions per dimension incl. difference x difference", "strand": "CAT(5)", "data": "all counts >= 0"},
     },
     "assumptions": ["weighted counts w >= 0 (cell level; C01/C02 link cells and bases to respondents)", "1.959964 is the binary float constant of the library"],
-    "outside": ["sizes beyond the bounds", "categorical-date wave differences (C04)"],
+    "outside": ["MR x MR variances (81 pattern masses: the radical VCs are inconclusive in z3 within 40 s, so not claimed)", "sizes beyond the bounds", "categorical-date wave differences (C04)"],
 }
 
 
@@ -219,5 +219,5 @@ def specs(tier):
         add("slice 3x4 two insertions each", "slice_obs", dict(ncols=4, row_ins=[S("r12", [1, 2]), D("r3-1", [3], [1], anchor="top")],
                                                                col_ins=[S("c14", [1, 4], anchor=2), D("c23-4", [2, 3], [4])]))
         add("strand 5", "strand_obs", dict(n=5, ins=[S("s", [1, 2, 3]), D("d", [5], [1, 2], anchor=3)]))
-        add("mr x mr", "mr_pair", dict(rows=V("mr", "a", 2), cols=V("mr", "b", 2)), max_paths=200)
+        add("mr3 strand", "mr_pair", dict(rows=V("mr", "a", 3), cols=None))
     return out
